@@ -1,0 +1,33 @@
+//go:build verif
+
+// Contracts for package type_msm4/satellite, checked by /verif/govc (see /verif/DESIGN.md).
+// This file contains only comments; it is compiled only with -tags verif and
+// has no effect on the package.
+
+package satellite
+
+//@ func GetSatelliteCells
+//@ requires startOfSatelliteData <= 1<<40
+//@ let n = len(Satellites)
+//@ ensures r1 == nil ==> len(r0) == n && fresh(r0) && startOfSatelliteData + 18*n + 24 <= 8*len(bitStream)
+//@ ensures r1 != nil ==> len(r0) == 0
+//@ ensures[C04] (r1 == nil) == (startOfSatelliteData + 18*n + 24 <= 8*len(bitStream))
+//@ loop 1
+//@ invariant 0 - 1 <= rangeindex && rangeindex <= n - 1 && (n == 0 || rangeindex < n)
+//@ invariant len(wholeMillis) == rangeindex + 1 && fresh(wholeMillis) && pos == startOfSatelliteData + 8*(rangeindex + 1)
+//@ invariant startOfSatelliteData + 18*n + 24 <= 8*len(bitStream)
+//@ decreases n - rangeindex
+//@ loop 2
+//@ invariant 0 - 1 <= rangeindex && rangeindex <= n - 1 && (n == 0 || rangeindex < n)
+//@ invariant len(fractionalMillis) == rangeindex + 1 && fresh(fractionalMillis) && pos == startOfSatelliteData + 8*n + 10*(rangeindex + 1)
+//@ invariant startOfSatelliteData + 18*n + 24 <= 8*len(bitStream) && len(wholeMillis) == n
+//@ decreases n - rangeindex
+//@ loop 3
+//@ invariant 0 - 1 <= rangeindex && rangeindex <= n - 1 && (n == 0 || rangeindex < n)
+//@ invariant len(satData) == rangeindex + 1 && fresh(satData)
+//@ invariant len(wholeMillis) == n && len(fractionalMillis) == n
+//@ decreases n - rangeindex
+
+//@ func (*Cell).String
+//@ requires[C07] cell != nil
+//@ arith wrap
